@@ -26,6 +26,19 @@ def check(prog, run, rule_id, prefixes, floor, consequence):
     for f in prog.all_funcs():
         if not any(f.module.name == p or f.module.name.startswith(p + ".") for p in prefixes):
             continue
+        # the same idea through the package's helper: deduplicate(items, key=<projection>) drops every later item with the same
+        # projection; in the validator an item is a usage / a node whose verdict can depend on any part of it
+        for c in own_nodes(f.node):
+            if isinstance(c, ast.Call) and isinstance(c.func, ast.Name) and c.func.id == "deduplicate":
+                kw = next((k.value for k in c.keywords if k.arg == "key"), c.args[1] if len(c.args) > 1 else None)
+                r.instance("%s: deduplicate(%s%s)" % (f.qualname, ast.unparse(c.args[0])[:40] if c.args else "", ", key=..." if kw is not None else ""), nontrivial=kw is not None)
+                if kw is None or (isinstance(kw, ast.Constant) and kw.value is None):
+                    continue
+                identity = isinstance(kw, ast.Lambda) and isinstance(kw.body, ast.Name) and kw.args.args and kw.body.id == kw.args.args[0].arg
+                if not identity:
+                    run.report(r, "%s:%s:lossy-dedup-key(%s)" % (f.module.name, f.qualname, " ".join(ast.unparse(kw).split())[:80]), f.where(c),
+                               "`%s` keeps only the first item per key: items that agree on the key but differ elsewhere (another "
+                               "location, a default, another node) are never examined" % " ".join(ast.unparse(c).split())[:120])
         for loop in own_nodes(f.node):
             if not isinstance(loop, (ast.For, ast.AsyncFor)):
                 continue
